@@ -157,6 +157,22 @@ func upstreamFaults(run *lib.Run, w *world, root *lib.RNG, direct, viaUp *child)
 			add(c)
 		}
 	}
+	// G: an origin that takes the request and stays silent, against a child whose
+	// --http-response-header-timeout is 1 s: an error response, not a hang
+	if w.rht != nil {
+		for rep := 0; rep < 3; rep++ {
+			for _, route := range []string{"plain", "mitm"} {
+				for _, m := range []string{"GET", "POST"} {
+					c := ucase{route: route, method: m, class: "response-header-timeout", child: w.rht, host: "fault.test"}
+					if route == "mitm" {
+						c.host = "faulttls.test:443"
+					}
+					c.f = &fault{kind: "cut", cut: 0, framing: "cl", hold: 4 * time.Second}
+					add(c)
+				}
+			}
+		}
+	}
 	// run
 	var wg sync.WaitGroup
 	sem := make(chan struct{}, 8)
